@@ -296,6 +296,39 @@ def _gen_powua(rng, D, P, tier):
 op('pow:ua', _gen_powua, lambda a: a[0] ** a[1], lambda z: z[0] ** z[1], tags=('arith',))
 
 
+def _gen_powuai(rng, D, P, tier):
+    """polynomial ** constant array of non-negative INTEGERS (any integer dtype; one-element arrays too), base points of either
+    sign and exactly zero: a plain product, no division"""
+    s = _shape(rng, tier) or (rng.randint(1, 3),)
+    rs = rng.choice([s, s[-1:], (1,) * len(s)])
+    x = rand_coeffs(rng, (D, P) + s, -1, 1)
+    x[0] = c01.gen_x0(rng, 'any', (P,) + s, False)
+    flat = x[0].reshape(P, -1)
+    flat[:, 0] = 0.0                                   # a zero base point in every direction
+    r = np.array([rng.choice([0, 1, 2, 2, 3, 4]) for _ in range(int(np.prod(rs)))]).reshape(rs)
+    return [U(x), A(r), Kp(rng.choice(['int64', 'int32', 'uint8']))]
+
+
+op('pow:uai', _gen_powuai, lambda a: a[0] ** a[1].astype(a[2]), lambda z: z[0] ** z[1], tags=('arith',))
+
+
+def _gen_param_array(rng, D, P, tier):
+    """special functions with an ARRAY-valued parameter (SciPy broadcasts it against x) of the same, lower or higher rank than x;
+    a leading axis as long as the number of directions must not be confused with the direction axis"""
+    s = _shape(rng, tier)
+    how = rng.choice(['same', 'lower', 'higherP', 'higher', 'higherP'])
+    rs = {'same': s or (P,), 'lower': s[1:] if len(s) > 1 else (s or (P,)), 'higherP': (P,) + s, 'higher': (rng.randint(2, 3),) + s}[how]
+    x = rand_coeffs(rng, (D, P) + s, -1, 1)
+    x[0] = rand_coeffs(rng, (P,) + s, 0.75, 3.0)
+    n = int(np.prod(rs))
+    return [U(x), A(np.array([rng.choice([0, 1, 2]) for _ in range(n)]).reshape(rs)), A(np.array([rng.choice([0.5, 1.0, 1.5]) for _ in range(n)]).reshape(rs))]
+
+
+op('polygamma:arr', _gen_param_array, lambda a: algopy.special.polygamma(a[1].astype(int), a[0]), lambda z: sp.polygamma(int(z[1]), z[0]), tags=('ew',))
+op('hyperu:arr', _gen_param_array, lambda a: algopy.special.hyperu(a[2], 1.5, a[0]), lambda z: sp.hyperu(z[2], 1.5, z[0]), tags=('ew',))
+op('clip:arr', _gen_param_array, lambda a: UTPM.botched_clip(a[2] - 0.25, a[2] + 1.0, a[0]), None, tags=('ew',))
+
+
 op('rpow:su', _gen_rpow, lambda a: a[0] ** a[1], lambda z: z[0] ** z[1], tags=('arith',))
 
 
